@@ -7,3 +7,7 @@ import KdVerif.Props.C04
 import KdVerif.Props.C05
 import KdVerif.Props.C12
 import KdVerif.Props.C14
+import KdVerif.Props.C10
+import KdVerif.Props.C17
+import KdVerif.Props.C16
+import KdVerif.Props.C11
